@@ -379,6 +379,34 @@ def solve_check_pipe(ctx: Ctx, n: int):
             shutil.rmtree(d, ignore_errors=True)
 
 
+def line_terminator_rows(ctx: Ctx):
+    """input FILES of the line-oriented language with 0, 1, 2 line feeds appended to a word (whose own last character is a
+    line feed): how an input file's trailing line terminator is treated must not depend on the random rows"""
+    gname = "lines"
+    bnf = GRAMMARS[gname][0]
+    for word in MEMBERS[gname][:3]:
+        for extra in (0, 1, 2):
+            d = tempfile.mkdtemp(prefix="islacli")
+            try:
+                content = word + "\n" * extra
+                p = os.path.join(d, "input.txt")
+                open(p, "w").write(content)
+                cmd = "check" if extra != 1 else ctx.rng.choice(["check", "parse"])
+                argv = [cmd, "--grammar", bnf, "--constraint", "true", p]
+                code, out, err = run_cli(argv)
+                inp = classify(("given", "member", content[:-1] if content.endswith("\n") else content, content), [None], gname)
+                want = drive([[Atom("c19"), Atom("check"), Atom("ok"), [Atom("ok")], inp]])[0]
+                ctx.evaluations += 1
+                ctx.count("row", f"line-terminator|{cmd}|word+{extra}LF")
+                desc = {"command": cmd, "argv": [a.replace(d, "<dir>") for a in argv], "input_content": content, "exit": code, "expected_exit": want, "stdout": out[-200:], "stderr": err[-200:]}
+                if isinstance(code, tuple):
+                    ctx.violation(f"traceback:{code[1]}:line-terminator", f"isla {cmd} ended with an uncaught {code[1]} for the file content {content!r}", dict(desc, traceback=code[2]))
+                elif code != want:
+                    ctx.violation(f"exit:{cmd}:line-terminator:word+{extra}LF", f"isla {cmd} exited {code} for the file content {content!r} of the line-oriented language, the contract demands {want}", desc)
+            finally:
+                shutil.rmtree(d, ignore_errors=True)
+
+
 def subprocess_sample(ctx: Ctx):
     """the real process exit status for a few rows"""
     d = tempfile.mkdtemp(prefix="islacli")
@@ -420,6 +448,7 @@ def run(ctx: Ctx):
     for row in range(n):
         ctx.check_time()
         one_case(ctx, row)
+    line_terminator_rows(ctx)
     solve_check_pipe(ctx, 3 if quick else 25)
     subprocess_sample(ctx)
     ctx.obligation("correspondence: CLI exit codes == decision table on all explored file sets; no traceback; pipes accepted", not ctx.violations)
